@@ -111,3 +111,81 @@ Proof.
   assert (E: forall x, negb (is_gap o x) = true) by (intro x; unfold is_gap; rewrite G; reflexivity).
   induction a as [|x a IH]; [reflexivity|]. cbn [filter]. rewrite E, IH. reflexivity.
 Qed.
+
+(* ---- exact placement and number of the gap symbols *)
+From SV Require Import C07_Gaps C07_Wrap.
+
+Lemma gap_placement t o l : gap_after_ok o = true -> translate t o l = spec_translate_g t o (u2t l).
+Proof. intros H. unfold translate. apply translate_t_gaps; exact H. Qed.
+
+Lemma ecount_0 o : gap_after_ok o = true -> ecount o 0 = 0%Z.
+Proof.
+  unfold gap_after_ok, ecount. destruct (o_gap o); [|reflexivity]. destruct (o_gap_after o) as [k|]; [|reflexivity].
+  intros H. apply Z.leb_le in H. assert (L: (0 <? k)%Z = true) by (apply Z.ltb_lt; lia). rewrite L. reflexivity.
+Qed.
+
+Lemma gap_marks_total o l : gap_after_ok o = true ->
+  Z.of_nat (sum_nat (marks o 0 0 l)) = ecount o (count_gap o l).
+Proof. intros H. rewrite (marks_total o H l 0%Z 0), (ecount_0 o H). simpl. lia. Qed.
+
+Lemma gap_marks_length o l : length (marks o 0 0 l) = S (length (codons (degap_in o l))).
+Proof. apply (marks_length o l 0%Z []). simpl. lia. Qed.
+
+Lemma gap_count t o gc l : gap_after_ok o = true -> o_gap o = Some gc -> gap_sym_ok t o = true ->
+  o_check_stop o = false -> started t o (codons (degap_in o (u2t l))) = true ->
+  forallb (fun c => negb (is_stop t c)) (codons (degap_in o (u2t l))) = true ->
+  exists out, translate t o l = Ok out /\ count_gap o out = ecount o (count_gap o (u2t l)).
+Proof.
+  intros Ha Hg Hs Hc Hst Hns. rewrite (gap_placement t o l Ha). unfold spec_translate_g. rewrite Hst.
+  destruct (spec_go_g_nostop t o gc Hg Hs Hc _ (marks o 0 0 (u2t l)) Hns (gap_marks_length o (u2t l))) as (out & E & C).
+  exists out. split; [exact E|]. rewrite C. apply gap_marks_total. exact Ha.
+Qed.
+
+(* ---- final_stop controls ONLY whether the terminal stop symbol is written *)
+Lemma spec_go_final_stop_only t o : forall cs,
+  spec_go t o cs = match spec_go t (with_final_stop false o) cs with
+                   | Err e => Err e
+                   | Ok a => Ok (a ++ if eff_final_stop o then end_stop t o cs else [])
+                   end.
+Proof.
+  induction cs as [|c rest IH]; cbn [spec_go end_stop].
+  - unfold with_final_stop at 1. cbn [o_check_stop]. destruct (o_check_stop o); [reflexivity|].
+    destruct (eff_final_stop o); reflexivity.
+  - change (o_check_stop (with_final_stop false o)) with (o_check_stop o).
+    change (o_complete (with_final_stop false o)) with (o_complete o).
+    change (o_astop (with_final_stop false o)) with (o_astop o).
+    change (eff_final_stop (with_final_stop false o)) with false.
+    destruct (is_stop t c && o_check_stop o && negb match rest with [] => true | _ => false end); [reflexivity|].
+    destruct (is_stop t c && (match rest with [] => true | _ => false end || negb (o_complete o))).
+    + destruct (eff_final_stop o); reflexivity.
+    + rewrite IH. destruct (spec_go t (with_final_stop false o) rest); reflexivity.
+Qed.
+
+Lemma final_stop_only t o l : gap_after_ok o = true -> gapfree o (u2t l) = true ->
+  translate t o l = match translate t (with_final_stop false o) l with
+                    | Err e => Err e
+                    | Ok a => Ok (a ++ if eff_final_stop o then end_stop t o (codons (u2t l)) else [])
+                    end.
+Proof.
+  intros Ha Hg. rewrite (translate_spec t o Ha l Hg).
+  rewrite (translate_spec t (with_final_stop false o) Ha l Hg).
+  rewrite !spec_translate_cases.
+  change (started t (with_final_stop false o) (codons (u2t l))) with (started t o (codons (u2t l))).
+  destruct (started t o (codons (u2t l))); [|reflexivity]. apply spec_go_final_stop_only.
+Qed.
+
+(* ---- every bundled table id resolves to one of the tables the per-table theorems speak about *)
+Lemma lookup_tab_In k : forall l t, lookup_tab k l = Some t -> In (k, t) l.
+Proof.
+  induction l as [|[i u] l IH]; intros t; cbn [lookup_tab]; [discriminate|].
+  destruct (N.eqb i k) eqn:E.
+  - intros H. inversion H. subst. apply N.eqb_eq in E. subst. left. reflexivity.
+  - intros H. right. apply IH. exact H.
+Qed.
+Lemma every_table_b : forallb (fun k => match lookup_tab k tabs with Some _ => true | None => false end) json_ids = true.
+Proof. vm_compute. reflexivity. Qed.
+Lemma every_table k : In k json_ids -> exists t, lookup_tab k tabs = Some t /\ In (k, t) tabs.
+Proof.
+  intros H. pose proof every_table_b as B. rewrite forallb_forall in B. specialize (B k H).
+  destruct (lookup_tab k tabs) as [t|] eqn:E; [|discriminate]. exists t. split; [reflexivity|]. apply lookup_tab_In. exact E.
+Qed.
